@@ -35,6 +35,18 @@ CHECKS = {
              "order 3 (quick) / 4 (thorough) shown non-singular by independent elimination, orders above sampled.",
         note="Minors of order 5 and 6 are sampled, not enumerated; expected blocks come from the independent encoder, not from raid_gen.",
         design="DESIGN.md section 4, C03"),
+    "C01": dict(
+        category="exploration",
+        technique="property-based testing (Hypothesis): generated history + generated damage within the parity level, restored tree compared with the synced snapshot",
+        engine="hypothesis-cli",
+        text="Generated configurations and sync histories, then device-level (<=N devices, several shapes each) or stripe-level (<=N "
+             "victims per stripe chosen on the independently parsed block map) damage, all but one content copy optionally removed; "
+             "fix must exit 0 without unrecoverable reports, the data disks must equal the snapshot taken at the sync (bytes, mtime "
+             "in ns, links, empty dirs, hard-link groups), check must pass and the C06 parity oracle must hold. ~8000 cases quick, "
+             "160k thorough.",
+        note="Silent corruption is generated only with hash size >= 8 (collisions of 2/4-byte hashes are legitimate misses); arrays "
+             "are small; lost disks keep their mount directory.",
+        design="DESIGN.md section 4, C01"),
     "C06": dict(
         category="exploration",
         technique="stateful property-based testing (Hypothesis) with an independent content parser, hashes and GF(2^8) parity oracle",
